@@ -12,12 +12,21 @@ import (
 // engine "sorted" (C16): skip-list map under int / string / bytes comparators and the merge heap over ascending inputs.
 
 type sortedCase struct {
-	Kind    string   `json:"kind"` // skiplist | pq
-	Cmp     string   `json:"cmp"`  // int | string | bytes
-	Inserts []int    `json:"inserts"`
-	Probes  []int    `json:"probes"`
-	Ranges  [][2]int `json:"ranges"`
-	Inputs  [][]int  `json:"inputs"`
+	Kind    string    `json:"kind"` // skiplist | pq
+	Cmp     string    `json:"cmp"`  // int | string | bytes
+	Inserts []int     `json:"inserts"`
+	Probes  []int     `json:"probes"`
+	Ranges  [][2]int  `json:"ranges"`
+	Inputs  [][]int   `json:"inputs"`
+	Live    *liveIter `json:"live"` // an iterator that is open while more keys are inserted
+}
+
+type liveIter struct {
+	Kind string `json:"kind"` // all | from | between
+	Lo   int    `json:"lo"`
+	Hi   int    `json:"hi"`
+	Pre  int    `json:"pre"`  // Next calls before the late keys are inserted
+	Late []int  `json:"late"` // keys inserted while the iterator is open
 }
 
 type sortedIn struct {
@@ -42,6 +51,7 @@ type slI interface {
 	iter() ([]int, string)
 	iterFrom(r int) ([]int, string)
 	between(lo, hi int) ([]int, string)
+	live(l *liveIter) ([]int, string)
 }
 
 type slOf[K any] struct {
@@ -86,6 +96,36 @@ func (s *slOf[K]) iterFrom(r int) ([]int, string) {
 func (s *slOf[K]) between(lo, hi int) ([]int, string) {
 	it, err := s.m.IteratorBetween(s.enc(lo), s.enc(hi))
 	return drainSL(it, err, s.dec)
+}
+
+// live: create the iterator, take l.Pre entries, insert the late keys, drain
+func (s *slOf[K]) live(l *liveIter) ([]int, string) {
+	var it skiplist.IteratorI[K, int]
+	var err error
+	switch l.Kind {
+	case "all":
+		it, err = s.m.Iterator()
+	case "from":
+		it, err = s.m.IteratorStartingAt(s.enc(l.Lo))
+	default:
+		it, err = s.m.IteratorBetween(s.enc(l.Lo), s.enc(l.Hi))
+	}
+	if err != nil {
+		return []int{}, "err:" + err.Error()
+	}
+	out := []int{}
+	for i := 0; i < l.Pre; i++ {
+		k, _, err := it.Next()
+		if err != nil {
+			break
+		}
+		out = append(out, s.dec(k))
+	}
+	for _, r := range l.Late {
+		s.insert(r)
+	}
+	rest, e := drainSL(it, nil, s.dec)
+	return append(out, rest...), e
 }
 
 // a consistent comparator that returns magnitudes other than -1 / 0 / 1
@@ -212,6 +252,18 @@ func runSorted(args []string) error {
 		for _, r := range c.Ranges {
 			out, e := sl.between(r[0], r[1])
 			tr.emit(M{"t": "between", "lo": r[0], "hi": r[1], "out": out, "err": e})
+		}
+		if c.Live != nil {
+			out, e := sl.live(c.Live)
+			late := c.Live.Late
+			if late == nil {
+				late = []int{}
+			}
+			tr.emit(M{"t": "live", "kind": c.Live.Kind, "lo": c.Live.Lo, "hi": c.Live.Hi, "pre": c.Live.Pre, "late": late, "out": out, "err": e})
+			all := append(append([]int{}, keys...), late...)
+			tr.emit(M{"t": "inserted", "keys": all, "size": sl.size(), "cmp": c.Cmp})
+			out, e = sl.iter()
+			tr.emit(M{"t": "iter", "out": out, "err": e})
 		}
 	}
 	return nil
